@@ -9,7 +9,8 @@
    Models: Model/H1Resp.v (C04), Model/H1Limits.v, Model/BodyStages.v, Model/Decode.v (C14). *)
 From ReqV Require Import Lib.Bytes Model.Decode Model.BodyStages Model.H1Resp Model.H1Limits
   Model.AltSvc Model.H2Frame Proofs.BodyStagesProofs Proofs.H1LimitsProofs Proofs.AltSvcProofs Proofs.C07Misc
-  Model.H2Info Proofs.H2InfoProofs Model.HeaderSlots Proofs.HeaderSlotsProofs Proofs.C07DigestAlg.
+  Model.H2Info Proofs.H2InfoProofs Model.HeaderSlots Proofs.HeaderSlotsProofs Proofs.C07DigestAlg
+  Model.H3Control Proofs.H3ControlProofs Proofs.C07H2Order.
 From ReqV Require Model.Digest Gen.C07Consts Model.H3Frame Model.H3Limits Proofs.H3FrameProofs Proofs.H3LimitsProofs.
 From Coq Require Import Lia.
 Local Open Scope nat_scope.
@@ -302,6 +303,38 @@ Theorem C07_authorize_hash_defined : forall H c uri m u p cn fs,
   Digest.authorize H c uri m u p cn = inl fs -> exists f, Digest.lookup_alg (Digest.c_algorithm c) = Some f.
 Proof. exact authorize_hash_defined. Qed.
 Print Assumptions C07_authorize_hash_defined.
+
+(* ---------- HTTP/2: nothing but its CONTINUATION gets through while a header block is open ---------- *)
+
+Theorem C07_h2_open_block_only_continuation : forall last h,
+  last <> 0%N -> (fh_type h <> H2Consts.FrameContinuation \/ fh_sid h <> last) -> check_order last h = None.
+Proof. exact open_block_only_continuation. Qed.
+Print Assumptions C07_h2_open_block_only_continuation.
+
+(* what ReadFrame hands out while a block is open IS a CONTINUATION of that stream (the premise of
+   readMetaFrame's unchecked type assertion) *)
+Theorem C07_h2_open_block_accepts_continuation : forall last h l,
+  last <> 0%N -> check_order last h = Some l -> fh_type h = H2Consts.FrameContinuation /\ fh_sid h = last.
+Proof. exact open_block_accepts_continuation. Qed.
+Print Assumptions C07_h2_open_block_accepts_continuation.
+
+(* ---------- HTTP/3: one control stream, whatever the order of events across streams ---------- *)
+
+Theorem C07_h3_control_guard_single : forall evs, c_closes (crun true evs) <= 1.
+Proof. exact control_guard_single. Qed.
+Print Assumptions C07_h3_control_guard_single.
+
+Theorem C07_h3_control_guard_second_refused : forall pre i j post,
+  c_dup (crun true (pre ++ CType i :: CType j :: post)) = true.
+Proof. exact control_guard_second_refused. Qed.
+Print Assumptions C07_h3_control_guard_second_refused.
+
+Theorem C07_h3_control_check_then_act_refuted :
+  c_closes (crun false [CType 0; CType 1; CSettings 0; CSettings 1]) = 2 /\
+  c_closes (crun true [CType 0; CType 1; CSettings 0; CSettings 1]) = 1 /\
+  c_closes (crun false [CType 0; CSettings 0; CType 1; CSettings 1]) = 1.
+Proof. exact control_guard_check_then_act_refuted. Qed.
+Print Assumptions C07_h3_control_check_then_act_refuted.
 
 (* ---------- translator tie: limits and tables regenerated from the source ---------- *)
 
